@@ -290,6 +290,15 @@ def asarray(x, xp: Any = None, dtype: Any | None = None, **kwargs) -> Array:
             tensor = tensor.to(resolve_dtype(dtype, xp=xp))
         return tensor
 
+    # PyTorch cannot wrap a NumPy array that has a negative stride (e.g. a
+    # reversed selection of a sample set), so hand it a compact copy
+    if (
+        isinstance(x, np.ndarray)
+        and is_torch_namespace(xp)
+        and any(stride < 0 for stride in x.strides)
+    ):
+        x = x.copy()
+
     if dtype is not None:
         kwargs["dtype"] = resolve_dtype(dtype, xp=xp)
     return xp.asarray(x, **kwargs)
